@@ -25,7 +25,7 @@ theorem openedFrom_add (rest : List (Stream μ)) (k k' : Nat) :
 
 theorem flatMap_openedFrom (rest : List (Stream μ)) (k : Nat) :
     (openedFrom rest k).flatMap (·.msgs) = (rest.take k).flatMap (·.msgs) := by
-  simp [openedFrom, List.flatMap_append, emptyErr]
+  simp [openedFrom, List.flatMap_append, emptyErr, Stream.msgs]
 
 theorem segOk_append (max n : Nat) (A B : List (Stream μ)) :
     segOk max n (A ++ B) = (segOk max n A && segOk max (cnt n A) B) := by
@@ -65,56 +65,56 @@ def EndsLive (rest : List (Stream μ)) (k : Nat) : Prop :=
   ∃ E s, openedFrom rest k = E ++ [s] ∧ E.all isEmptyStream = true ∧ isEmptyStream s = false
 
 def AttSeg (c : Cli μ ρ) (fuel : Nat) : Recv μ ρ → Prop
-  | .msg _ c' => ∃ k, c'.reqs.length = c.reqs.length + k ∧ c'.rest = c.rest.drop k ∧ k ≤ fuel ∧ EndsLive c.rest k
-  | .fail e c' => ∃ k, c'.reqs.length = c.reqs.length + k ∧ c'.rest = c.rest.drop k ∧ k ≤ fuel ∧ AllEmpty c.rest k ∧
+  | .msg _ c' => ∃ k, c'.reqs.length = c.reqs.length + srv c.rest k ∧ c'.rest = c.rest.drop k ∧ k ≤ fuel ∧ EndsLive c.rest k
+  | .fail e c' => ∃ k, c'.reqs.length = c.reqs.length + srv c.rest k ∧ c'.rest = c.rest.drop k ∧ k ≤ fuel ∧ AllEmpty c.rest k ∧
       (e ≠ .blocked → k = fuel)
 
 theorem AttSeg.step {c c1 : Cli μ ρ} {n : Nat} {r : Recv μ ρ} {x : Stream μ}
-    (h1 : c1.reqs.length = c.reqs.length + 1) (h2 : c1.rest = c.rest.drop 1)
+    (h1 : c1.reqs.length = c.reqs.length + srv c.rest 1) (h2 : c1.rest = c.rest.drop 1)
     (h3 : ∀ k, openedFrom c.rest (1 + k) = x :: openedFrom c1.rest k) (hx : isEmptyStream x = true)
     (g : AttSeg c1 n r) : AttSeg c (n + 1) r := by
   cases r with
   | msg m c' =>
     obtain ⟨k, g1, g2, g3, E, s, g4, g5, g6⟩ := g
-    refine ⟨1 + k, by omega, by rw [g2, h2, List.drop_drop], by omega, x :: E, s, ?_, ?_, g6⟩
+    refine ⟨1 + k, by rw [srv_add, ← h2]; omega, by rw [g2, h2, List.drop_drop], by omega, x :: E, s, ?_, ?_, g6⟩
     · rw [h3, g4]; rfl
     · simp [hx, g5]
   | fail e c' =>
     obtain ⟨k, g1, g2, g3, g4, g5⟩ := g
-    refine ⟨1 + k, by omega, by rw [g2, h2, List.drop_drop], by omega, ?_, fun hh => by have := g5 hh; omega⟩
+    refine ⟨1 + k, by rw [srv_add, ← h2]; omega, by rw [g2, h2, List.drop_drop], by omega, ?_, fun hh => by have := g5 hh; omega⟩
     unfold AllEmpty at g4 ⊢
     rw [h3]; simp [hx, g4]
 
 theorem attempt_seg (fuel : Nat) (last : ErrClass) (c : Cli μ ρ) : AttSeg c fuel (attempt fuel last c) := by
   induction fuel generalizing last c with
-  | zero => exact ⟨0, rfl, by simp, Nat.le_refl _, by simp [AllEmpty, openedFrom_zero], fun _ => rfl⟩
+  | zero => exact ⟨0, by simp [srv_zero], by simp, Nat.le_refl _, by simp [AllEmpty, openedFrom_zero], fun _ => rfl⟩
   | succ n ih =>
     obtain ⟨cur, curEnd, rest, sent, reqs, reach, cancelIs⟩ := c
     cases rest with
     | nil =>
       simp only [attempt]
-      refine AttSeg.step (x := emptyErr) (by simp) (by simp) ?_ (by simp [isEmptyStream, emptyErr]) (ih _ _)
+      refine AttSeg.step (x := emptyErr) (by simp [srv, srv_zero]) (by simp) ?_ (by simp [isEmptyStream, emptyErr, Stream.msgs]) (ih _ _)
       intro k; rw [Nat.add_comm]; exact openedFrom_nil_succ k
     | cons s r =>
       simp only [attempt]
       cases hm : s.msgs with
       | cons m ms =>
-        refine ⟨1, by simp, by simp, by omega, [], s, by simp [openedFrom], rfl, by simp [isEmptyStream, hm]⟩
+        refine ⟨1, by simp only; rw [reqs_step s r reqs sent]; simp, by simp, by omega, [], s, by simp [openedFrom], rfl, by simp [isEmptyStream, hm]⟩
       | nil =>
         have hx : isEmptyStream s = true := by simp [isEmptyStream, hm]
         by_cases hh : s.fin = .hang
         · simp only [hh, if_true]
-          refine ⟨1, by simp, by simp, by omega, ?_, fun h => absurd rfl h⟩
+          refine ⟨1, by simp only; rw [reqs_step s r reqs sent]; simp, by simp, by omega, ?_, fun h => absurd rfl h⟩
           simp [AllEmpty, openedFrom, hx]
         · simp only [hh, if_false]
-          refine AttSeg.step (x := s) (by simp) (by simp) ?_ hx (ih _ _)
+          refine AttSeg.step (x := s) (by simp only; rw [reqs_step s r reqs sent]; simp) (by simp) ?_ hx (ih _ _)
           intro k; rw [Nat.add_comm]; exact openedFrom_cons_succ s r k
 
 /-- budget facts of one `RecvMsg` -/
 def RecvSeg (watch : Bool) (max : Nat) (c : Cli μ ρ) : Recv μ ρ → Prop
-  | .msg _ c' => ∃ k, c'.reqs.length = c.reqs.length + k ∧ c'.rest = c.rest.drop k ∧ (c'.reach = c.reach ∧ c'.cancelIs = c.cancelIs) ∧
+  | .msg _ c' => ∃ k, c'.reqs.length = c.reqs.length + srv c.rest k ∧ c'.rest = c.rest.drop k ∧ (c'.reach = c.reach ∧ c'.cancelIs = c.cancelIs) ∧
       segOk max 0 (openedFrom c.rest k) = true ∧ cnt 0 (openedFrom c.rest k) = 0
-  | .fail e c' => ∃ k, c'.reqs.length = c.reqs.length + k ∧ c'.rest = c.rest.drop k ∧
+  | .fail e c' => ∃ k, c'.reqs.length = c.reqs.length + srv c.rest k ∧ c'.rest = c.rest.drop k ∧
       segOk max 0 (openedFrom c.rest k) = true ∧
       ((e = .eof ∨ e = .unavailable) → watch = true → cnt 0 (openedFrom c.rest k) = max + 1)
 
@@ -123,7 +123,7 @@ theorem recvMsg_seg (watch : Bool) (max : Nat) (cancelled : Bool) (c : Cli μ ρ
   have zero_fail : ∀ e, (e = ErrClass.eof ∨ e = .unavailable → watch = true → False) →
       RecvSeg watch max c (.fail e c) := by
     intro e he
-    exact ⟨0, rfl, by simp, by simp [openedFrom_zero, segOk], fun h1 h2 => (he h1 h2).elim⟩
+    exact ⟨0, by simp [srv_zero], by simp, by simp [openedFrom_zero, segOk], fun h1 h2 => (he h1 h2).elim⟩
   unfold recvMsg
   cases cancelled with
   | true =>
@@ -133,7 +133,7 @@ theorem recvMsg_seg (watch : Bool) (max : Nat) (cancelled : Bool) (c : Cli μ ρ
   | false =>
     simp only [Bool.false_eq_true, if_false]
     cases hcur : c.cur with
-    | cons m ms => exact ⟨0, rfl, by simp, ⟨rfl, rfl⟩, by simp [openedFrom_zero, segOk], by simp [openedFrom_zero, cnt]⟩
+    | cons m ms => exact ⟨0, by simp [srv_zero], by simp, ⟨rfl, rfl⟩, by simp [openedFrom_zero, segOk], by simp [openedFrom_zero, cnt]⟩
     | nil =>
       by_cases hh : c.curEnd = .hang
       · simp only [hh, if_true]; apply zero_fail; simp
@@ -169,28 +169,76 @@ theorem recvMsg_seg (watch : Bool) (max : Nat) (cancelled : Bool) (c : Cli μ ρ
 `max + 1` consecutive ones without a message, and when it ends with the stream's own error
 (EOF / status error: not blocked, not cancelled) the last `max + 1` re-opened streams delivered nothing -/
 theorem recvLoop_seg (watch : Bool) (max : Nat) (fuel : Nat) (ca : Option Nat) (c : Cli μ ρ) (hr : Quiet c) :
-    ∃ k, (recvLoop watch max ca fuel c).final.reqs.length = c.reqs.length + k ∧
+    ∃ k, (recvLoop watch max ca fuel c).final.reqs.length = c.reqs.length + srv c.rest k ∧
+      (recvLoop watch max ca fuel c).final.rest = c.rest.drop k ∧
       segOk max 0 (openedFrom c.rest k) = true ∧
       (((recvLoop watch max ca fuel c).err = .eof ∨ (recvLoop watch max ca fuel c).err = .unavailable) →
         watch = true → cnt 0 (openedFrom c.rest k) = max + 1) := by
   induction fuel generalizing ca c with
-  | zero => exact ⟨0, rfl, by simp [openedFrom_zero, segOk], fun h => by simp [recvLoop] at h⟩
+  | zero => exact ⟨0, by simp [srv_zero, recvLoop], by simp [recvLoop], by simp [openedFrom_zero, segOk], fun h => by simp [recvLoop] at h⟩
   | succ n ih =>
     unfold recvLoop
     have h1 := recvMsg_seg watch max (ca == some 0) c hr
     split
     · rename_i e c' heq
       rw [heq] at h1
-      obtain ⟨k, g1, _, g3, g4⟩ := h1
-      exact ⟨k, g1, g3, g4⟩
+      obtain ⟨k, g1, g2, g3, g4⟩ := h1
+      exact ⟨k, g1, g2, g3, g4⟩
     · rename_i m c' heq
       rw [heq] at h1
       obtain ⟨k, g1, g2, g3, g4, g5⟩ := h1
-      obtain ⟨k', i1, i2, i3⟩ := ih (ca.map (· - 1)) c' (by unfold Quiet; rw [g3.1, g3.2]; exact hr)
-      refine ⟨k + k', by simp only; omega, ?_, ?_⟩
+      obtain ⟨k', i1, i1', i2, i3⟩ := ih (ca.map (· - 1)) c' (by unfold Quiet; rw [g3.1, g3.2]; exact hr)
+      refine ⟨k + k', by simp only; rw [srv_add, ← g2]; omega, by simp only; rw [i1', g2, List.drop_drop], ?_, ?_⟩
       · rw [openedFrom_add, segOk_append, g4, g5, ← g2, i2]; rfl
       · intro he hw
         rw [openedFrom_add, cnt_append, g5, ← g2]
         exact i3 he hw
+
+theorem srv_nil (k : Nat) : srv ([] : List (Stream μ)) k = k := by
+  induction k with
+  | zero => rfl
+  | succ k ih => simp only [srv, ih]
+
+/-- the number of attempts is determined by what is left of the script and how many requests
+reached the server -/
+theorem attempts_unique (rest : List (Stream μ)) (k1 k2 : Nat)
+    (hd : rest.drop k1 = rest.drop k2) (hs : srv rest k1 = srv rest k2) : k1 = k2 := by
+  induction rest generalizing k1 k2 with
+  | nil => rw [srv_nil, srv_nil] at hs; exact hs
+  | cons s r ih =>
+    cases k1 with
+    | zero =>
+      cases k2 with
+      | zero => rfl
+      | succ k2 =>
+        exfalso
+        have := congrArg List.length hd
+        simp at this; omega
+    | succ k1 =>
+      cases k2 with
+      | zero =>
+        exfalso
+        have := congrArg List.length hd
+        simp at this; omega
+      | succ k2 =>
+        simp only [List.drop_succ_cons] at hd
+        simp only [srv] at hs
+        rw [ih k1 k2 hd (by omega)]
+
+/-- everything known about a whole run, for ONE number `k` of re-open attempts: the `Adv` relation
+(delivered messages, server log, remaining script) and the budget facts -/
+theorem recvLoop_full (watch : Bool) (max : Nat) (fuel : Nat) (ca : Option Nat) (c : Cli μ ρ) (hr : Quiet c) :
+    ∃ k, (watch = false → k = 0) ∧
+      Adv c (recvLoop watch max ca fuel c).final k (recvLoop watch max ca fuel c).delivered ∧
+      segOk max 0 (openedFrom c.rest k) = true ∧
+      (((recvLoop watch max ca fuel c).err = .eof ∨ (recvLoop watch max ca fuel c).err = .unavailable) →
+        watch = true → cnt 0 (openedFrom c.rest k) = max + 1) := by
+  obtain ⟨ka, hw, ha⟩ := recvLoop_adv watch max fuel ca c hr
+  obtain ⟨ks, s1, s2, s3, s4⟩ := recvLoop_seg watch max fuel ca c hr
+  have hlen := congrArg List.length ha.reqs
+  simp only [List.length_append, List.length_replicate] at hlen
+  have : ka = ks := attempts_unique c.rest ka ks (by rw [← ha.rest, s2]) (by omega)
+  subst this
+  exact ⟨ka, hw, ha, s3, s4⟩
 
 end Eru.Rpc.Retry
